@@ -36,6 +36,8 @@ class CoopLocal(object):
 
 class Threading(object):
     local = CoopLocal
+    Lock = coop.CoopLock
+    RLock = coop.CoopLock
 
 
 def load():
@@ -55,7 +57,8 @@ def load():
 
 def scenario(oracle, discard_by, copy_on=False, body_raises=False, max_steps=4000):
     """discard_by: None | 'worker' (worker B discards before its own call) | 'body' (worker A's intercepted body discards)
-    | 'operation' (the operation body discards after spawning the workers)"""
+    | 'operation' (the operation body discards after spawning the workers) | 'watchdog' (an independent thread, e.g. a
+    timeout handler, discards at any moment - also while the recorder is finalising the recording)"""
     load()
     from playback.tape_recorder import TapeRecorder
     from playback.tape_cassette import TapeCassette
@@ -148,12 +151,20 @@ def scenario(oracle, discard_by, copy_on=False, body_raises=False, max_steps=400
 
     def main():
         out['r'] = yield from coop._coop_call(Op().execute)
+
+    def watchdog():
+        yield coop.POINT
+        yield from coop._coop_call(tr.discard_recording)
     sched.spawn(main(), 'main')
+    if discard_by == 'watchdog':
+        sched.spawn(watchdog(), 'watchdog')
     status = sched.run(max_steps)
     errs = [(t.name, repr(t.error)) for t in sched.tasks if t.error]
     want_a = ('boom',) if body_raises else ('ret', 10)
+    finalisers = [e for e in spy.log if e in ('save', 'abort')]
     ok = (status == 'done' and not errs and out.get('r') == 7 and results.get('a') == want_a
-          and results.get('b') == ('ret', 3) and sorted(journal) == [('read', 1), ('write', 2)])
+          and results.get('b') == ('ret', 3) and sorted(journal) == [('read', 1), ('write', 2)]
+          and spy.log[:1] == ['create'] and len(finalisers) == 1)
     why = 'status=%s errors=%s out=%s results=%s journal=%s cassette=%s steps=%d' % (
         status, errs, out, results, journal, spy.log, sched.steps)
     return ok, why, sched.steps
